@@ -6,6 +6,7 @@ import (
 	"encoding/hex"
 	"fmt"
 	"math/big"
+	"strings"
 
 	"pgregory.net/rapid"
 
@@ -714,6 +715,38 @@ func genAdvPeer(rt *rapid.T, nm *hx.NodeMachine, cfg genCfg) hx.NOp {
 			op.Expect = "txs-built-on-older-state"
 		}
 	default:
+		// a block that makes one of this node's pending transactions stale (writes a key it read) and carries it all
+		// the same: the node verified that transaction when it was submitted, on another state
+		if nm.Valid[nm.Ptr] && rapid.Bool().Draw(rt, "stalepool") {
+			for _, ptx := range nm.Pool {
+				key := ""
+				for _, in := range ptx.TxInputsExt {
+					if in.Bucket == hx.VerifContract {
+						key = string(in.Key)
+					}
+				}
+				if key == "" {
+					continue
+				}
+				s := nm.States[nm.Ptr].Clone()
+				spec, ok := genTxSpec(rt, nm, s, genCfg{Keys: cfg.Keys, ContractPct: 0}, 0, false)
+				if !ok {
+					break
+				}
+				spec.Prog = []hx.Ins{{Op: "put", K: key, V: fmt.Sprintf("w%d", rapid.IntRange(0, 9).Draw(rt, "val"))}}
+				h := m.Blocks[nm.Ptr].Height + 1
+				tx, _ := buildForGen(nm, &spec, s)
+				if tx == nil || s.Check(tx, h) != nil || s.Check(ptx, h) != nil {
+					break
+				}
+				s.Apply(tx, hx.Ring[op.Proposer].Address)
+				if e := s.Check(ptx, h); e == nil || !strings.Contains(e.Error(), "cited at version") {
+					break // the only thing wrong with the pending transaction must be its read set
+				}
+				return hx.NOp{Op: "peer", Label: op.Label, Parent: nm.Ptr, Proposer: op.Proposer, Txs: []hx.TxSpec{spec},
+					Pool: []string{hex.EncodeToString(ptx.Txid)}, PoolForce: true, Expect: "stale-pending-tx-in-block"}
+			}
+		}
 		// re-include a transaction confirmed on the parent's own chain (only on the tip: the ledger
 		// must answer ErrTxDuplicated; on side branches see finding C04-dup-tx-own-branch)
 		if parent != m.Tip {
